@@ -231,6 +231,18 @@ def run_net(case):
         return {'violations': [dict(fingerprint=f'valid-config-rejected:{type(exc).__name__}',
                                     what=f'design rejected a valid single-policy configuration: {str(exc)[:200]}')],
                 'transitions': 1}
+    if case.get('saved'):
+        # the designed network is saved (network_to_json), loaded again and designed again: the ROADMs of a saved design
+        # must equalise to the same targets of the original document
+        import json
+        from gnpy.tools.json_io import network_to_json
+        from gnpy.tools.convert_legacy_yang import yang_to_legacy
+        try:
+            saved = yang_to_legacy(json.loads(json.dumps(network_to_json(net))))
+            net, equipment, _, _ = c.design(saved, eq)
+        except Exception as exc:  # noqa
+            return {'violations': [dict(fingerprint=f'saved-design-cannot-be-loaded:{type(exc).__name__}',
+                                        what=f'{type(exc).__name__}: {str(exc)[:300]}', case=case)], 'transitions': 1}
     transitions = 0
     branches = 0
     crossings = {'A': ('add', 'trx A', 'A>B:0:Edfa'), 'B': ('express', 'A>B:2:Edfa', 'B>C:0:Edfa'),
@@ -300,7 +312,8 @@ def run_net(case):
     over_differs = case['override'] != 'none' and case['override'] != node_policy(case)[0]
     return {'violations': viol[:12], 'transitions': transitions, 'traces': 0 if viol else 1,
             'nontrivial': branches == 3 and (over_differs or case['variety'] != 'plain'),
-            'tags': {'branches-both': int(branches == 3), 'override-other-type': int(over_differs)},
+            'tags': {'branches-both': int(branches == 3), 'override-other-type': int(over_differs),
+                     'saved-design': int(bool(case.get('saved')))},
             'outcomes': [f'{node_policy(case)[0]}/{case["override"]}/{case["variety"]}'],
             'sample': case}
 
@@ -369,8 +382,9 @@ def main(rep, tier, seed):
                 for override in ['none'] + pols:
                     for over_val in (range(2) if override != 'none' else [0]):
                         for variety in VARIETIES:
-                            cases.append(dict(kind='net', lib_policy=lib_policy, node_policy=node_policy_, node_val=node_val,
-                                              override=override, over_val=over_val, variety=variety))
+                            for saved in (0, 1):
+                                cases.append(dict(kind='net', lib_policy=lib_policy, node_policy=node_policy_, node_val=node_val,
+                                                  override=override, over_val=over_val, variety=variety, saved=saved))
     subsets = [list(x) for r in range(4) for x in itertools.combinations(pols, r)]
     for lk in subsets:
         for ek in subsets:
@@ -379,7 +393,7 @@ def main(rep, tier, seed):
     rep.absorb(results)
     rep.cov['bound'] = ('full product: library policy x node policy{pch,psd,psw,library default} x 3 target values x per-degree '
                         'override{none,pch,psd,psw} x 2 values x ROADM type{no impairments, per-band impairment profiles listed in two orders, '
-                        'element-selected profile id 3 / id 0}; per network 3 crossing kinds x 6 spectra (two of them equally sized in different loss ranges, consecutively on one ROADM object) x 7 input-level patterns x 3 carrier construction orders + 4 '
+                        'element-selected profile id 3 / id 0} x {designed network, saved + reloaded + redesigned network}; per network 3 crossing kinds x 6 spectra (two of them equally sized in different loss ranges, consecutively on one ROADM object) x 7 input-level patterns x 3 carrier construction orders + 4 '
                         'recorded propagations; part 2: all 8x8 subsets of equalisation keys at library and element level')
     rep.cov['space_size'] = len(cases)
     rep.cov['exhaustive'] = not stats['budget_hit'] and len(results) == len(cases)
@@ -390,6 +404,7 @@ def main(rep, tier, seed):
     rep.assumptions += ['reference carrier 32 GBaud / 50 GHz (SI default of the vendored test library)',
                         'impairment profiles cover the whole spectrum (a profile that omits a band is a configuration error)']
     rep.require(rep.tags.get('branches-both', 0) >= 10, 'min() branches not both exercised')
+    rep.require(rep.tags.get('saved-design', 0) >= 10, 'saved designs not exercised')
     rep.require(rep.tags.get('override-other-type', 0) >= 10, 'no per-degree override of a type different from the node type')
     rep.require(rep.tags.get('config-error', 0) >= 1 and sum(v for k, v in rep.tags.items() if k.startswith('policy-in-force')) >= 3,
                 'equalisation-key combinations did not exercise both errors and all three policies')
